@@ -37,8 +37,9 @@ ASSUMPTIONS = [
     "argument domains are the small ones listed in BOUNDS; restrictions outside the listed families (FlatteningRestriction, FunctionRestriction, AnyMatch, GetAttrRestriction, fetchables, glsa restrictions) are not covered",
 ]
 BOUNDS = {
-    "quick": "families x argument domains giving ~1.9k objects; all ordered same-family pairs",
-    "thorough": "same objects; all ordered pairs across all families as well",
+    "quick": "9 families, 1504 objects (_VersionMatch 384 = 6 ops x 4 versions x 8 revision spellings x negate, VersionMatch 384, value matchers 160, "
+    "_UseDepDefaultContainment 20, PackageRestriction family 210, Conditional 48, boolean nodes 156, atoms 100, DepSets 42); all 403k ordered same-family pairs",
+    "thorough": "same objects; additionally all 1.86M ordered cross-family pairs",
 }
 
 # ----------------------------------------------------------------------------------------------
